@@ -293,6 +293,9 @@ pub enum BrokerAct {
     Close,
     /// change the ack policy of the current connection
     Policy(BrokerPolicy),
+    /// the network stalls: of whatever the broker sends next, only `after` bytes arrive at once;
+    /// the rest arrives after the client's read found nothing `blocks` times
+    Gate { after: usize, blocks: u8 },
 }
 
 #[derive(Clone, Debug, Serialize, Deserialize, PartialEq)]
